@@ -591,9 +591,6 @@ pub fn run(ctx: &Ctx, sh: &mut Shard) {
         let mut r = Rng::derive(ctx.seed, ctx.shard, k);
         let g = *r.pick(&[3i64, 4, 4, 5, 6, 8]);
         let lat = Lat::random(&mut r);
-        // one case in eight at an extreme scale (whole extent around 1e-23 .. 1e-11 or 1e13 .. 1e25): the overlay works in
-        // fixed point relative to the extent of its input, so nothing absolute (an epsilon, a unit snap) may enter
-        let lat = if r.chance(1, 8) { Lat { ox: 0, oy: 0, sh: if r.chance(1, 2) { r.range(-80, -40) } else { r.range(40, 80) } as i32, shear: 0 } } else { lat };
         match k % 8 {
             6 => {
                 // unary_union of a consistently wound collection (members may overlap)
